@@ -254,6 +254,23 @@ def gen_query(rng):
     if r < 0.9:
         w1, w2 = rng.sample(WORDS, 2)
         return query.Or([query.Term("t", w1), query.Term("t", w2)]), (lambda d: w1 in d["t"].split() or w2 in d["t"].split())
+    if r >= 0.95:
+        # list-backed and negated matchers (Every / numeric range as the positive side of AndNot, Not inside And): sorted,
+        # unscored, filtered and faceted views consume them through all_ids()
+        w1 = rng.choice(WORDS)
+        lo = rng.choice([-3, -1, 0, 1])
+        kind = rng.choice(["every-andnot", "range-andnot", "range", "and-not", "everyfield-andnot"])
+        has = (lambda d: w1 in d["t"].split())
+        inr = (lambda d: d.get("n") is not None and d["n"] >= lo)
+        if kind == "every-andnot":
+            return query.AndNot(query.Every(), query.Term("t", w1)), (lambda d: not has(d))
+        if kind == "range-andnot":
+            return query.AndNot(query.NumericRange("n", lo, None), query.Term("t", w1)), (lambda d: inr(d) and not has(d))
+        if kind == "range":
+            return query.NumericRange("n", lo, None), inr
+        if kind == "everyfield-andnot":
+            return query.AndNot(query.Every("n"), query.Term("t", w1)), (lambda d: d.get("n") is not None and not has(d))
+        return query.And([query.NumericRange("n", lo, None), query.Not(query.Term("t", w1))]), (lambda d: inr(d) and not has(d))
     w1, w2 = rng.sample(WORDS, 2)
     return query.And([query.Term("t", w1), query.Term("t", w2)]), (lambda d: w1 in d["t"].split() and w2 in d["t"].split())
 
@@ -1072,8 +1089,14 @@ def run(ctx):
         try:
             for qi in range(2):
                 q, qfn = gen_query(rng)
-                with ix.searcher() as s:
+                from vf import model as _model
+                psz = None if case.huge else _model.partsize_for(idx)
+                if psz is not None:
+                    ctx.count("c14.small_array_parts")
+                with _model.array_partsize(psz), ix.searcher() as s:
                     w = dict(wit, query=repr(q), docs=[case.docs[k] for k in sorted(case.docs)][:45])
+                    if psz is not None:
+                        w["array_partsize(default of ArrayUnionMatcher)"] = psz
                     env = Env(ctx, rng, case, s, q, qfn, w)
                     if not base_ranking(env):
                         continue
